@@ -58,6 +58,41 @@ pub fn env() -> &'static Env {
     ENV.lock().unwrap().unwrap()
 }
 
+static EXECS: AtomicU64 = AtomicU64::new(0);
+
+/// Called at the start of every execution with the raw fuzzer input: keeps `cur.raw` (the unit
+/// being executed) and `count` (executions so far) up to date for the external watchdog, because
+/// libFuzzer's own SIGALRM-based timeout can deadlock inside malloc.
+pub fn begin(raw: &[u8]) {
+    let e = env();
+    let n = EXECS.fetch_add(1, Ordering::Relaxed) + 1;
+    let _ = std::fs::write(e.dir.join("cur.raw"), raw);
+    if n % 32 == 1 {
+        let _ = std::fs::write(e.dir.join("count"), n.to_string());
+    }
+}
+
+/// Domain of a known finding (C22 `hang:cpu-bound:libwild::version_script::parse_matcher`): an
+/// `extern` block whose `{` is never followed by a `}`.  In-process a hang cannot be tolerated, so
+/// such inputs are skipped (the process-level engine excludes the same domain by construction).
+pub fn known_extern_hang(text: &[u8]) -> bool {
+    let mut i = 0;
+    while let Some(p) = find(&text[i..], b"extern") {
+        let after = i + p + 6;
+        if let Some(b) = text[after..].iter().position(|c| *c == b'{') {
+            if !text[after + b..].contains(&b'}') {
+                return true;
+            }
+        }
+        i = after;
+    }
+    false
+}
+
+fn find(hay: &[u8], needle: &[u8]) -> Option<usize> {
+    hay.windows(needle.len()).position(|w| w == needle)
+}
+
 /// Runs `f` and classifies a panic. Returns normally for Ok / Err / tolerated panics; aborts for
 /// an unknown panic (after printing its location so that the driver can key the finding).
 pub fn guarded(what: &str, f: impl FnOnce()) {
